@@ -22,7 +22,7 @@ Definition nv_s1 : source :=
     SOpAssign vx BSub (EBin BMul (EInt 5) (EInt 2));
     SPrint (EVar vx) ].
 Example C01_nv_stage1 :
-  ok_block [] false [] nv_s1 = true /\
+  ok_block [] None false [] nv_s1 = true /\
   vm_out nv_s1 200 = (fst (run 200 nv_s1), Done) /\ snd (run 200 nv_s1) = RODone /\
   fst (run 200 nv_s1) = [[118; 61; 55]; [45; 51]]%N.
 Proof. vm_compute. repeat split. Qed.
@@ -33,7 +33,7 @@ Definition nv_s1f : source :=
     SAssert (EBin BLt (EVar vx) (EInt 2)) [115%N; 112%N];
     SPrint (EInt 99) ].
 Example C01_nv_stage1_fail :
-  ok_block [] false [] nv_s1f = true /\
+  ok_block [] None false [] nv_s1f = true /\
   run 200 nv_s1f = ([[51%N]], ROFail (FAssert [115%N; 112%N])) /\
   vm_out nv_s1f 200 = ([[51%N]], RuntimeErr (E_assert [115%N; 112%N]) [LFun (s_module_fn nvp)]).
 Proof. vm_compute. repeat split. Qed.
@@ -52,7 +52,7 @@ Definition nv_s2 : source :=
         SPrint (EVar vacc) ];
     SPrint (EVar vacc) ].
 Example C01_nv_stage2 :
-  ok_block [] false [] nv_s2 = true /\
+  ok_block [] None false [] nv_s2 = true /\
   vm_out nv_s2 2000 = (fst (run 2000 nv_s2), Done) /\ snd (run 2000 nv_s2) = RODone /\
   length (fst (run 2000 nv_s2)) = 8.
 Proof. vm_compute. repeat split. Qed.
@@ -71,7 +71,7 @@ Definition nv_s3 : source :=
         SPrint (EBin BMul (EVar vi) (EVar vx)) ];
     SPrint (EVar vi) ].
 Example C01_nv_stage3 :
-  ok_block [] false [] nv_s3 = true /\
+  ok_block [] None false [] nv_s3 = true /\
   vm_out nv_s3 5000 = (fst (run 5000 nv_s3), Done) /\ snd (run 5000 nv_s3) = RODone /\
   fst (run 5000 nv_s3) = [[49]; [57]; [49; 54]; [103; 116]; [50; 53]; [54]]%N.
 Proof. vm_compute. repeat split. Qed.
@@ -91,7 +91,7 @@ Definition nv_s4 : source :=
         SPrint (EBin BAdd (EBin BAdd (EVar vi) (EStr [58%N])) (EVar vacc)) ];
     SPrint (EVar vacc) ].
 Example C01_nv_stage3_from :
-  ok_block [] false [] nv_s4 = true /\
+  ok_block [] None false [] nv_s4 = true /\
   vm_out nv_s4 5000 = (fst (run 5000 nv_s4), Done) /\ snd (run 5000 nv_s4) = RODone /\
   length (fst (run 5000 nv_s4)) = 4.
 Proof. vm_compute. repeat split. Qed.
@@ -132,16 +132,23 @@ Definition nv_main : list stmt :=
         SPrint (EVar vt) ] ].
 Definition nv_s5 : source := fmodule nv_ft nv_main.
 Example C01_nv_stage4b :
-  ok_block nv_ft false [] nv_main = true /\
+  ok_block nv_ft None false [] nv_main = true /\
   vm_out nv_s5 5000 = (fst (run 5000 nv_s5), Done) /\ snd (run 5000 nv_s5) = RODone /\
   fst (run 5000 nv_s5) = [[51]; [54; 48; 48]; [52]; [60]; [57]; [54; 48; 48]]%N.
 Proof. vm_compute. repeat split. Qed.
 
-Lemma nv_ft_ok : Forall fn_ok nv_ft.
-Proof.
-  repeat constructor; try (vm_compute; reflexivity); try (intros [H|H]; try discriminate H; try destruct H);
-    try (intros []).
-Qed.
+Ltac fn_ok_tac :=
+  repeat match goal with
+  | |- _ /\ _ => split
+  | |- True => exact Logic.I
+  | |- NoDup _ => repeat constructor; cbn; intuition discriminate
+  | |- forall x, In x _ -> ~ In x _ => vm_compute; intros ? ? ?; intuition (subst; discriminate)
+  | |- _ = true => vm_compute; reflexivity
+  | |- small _ => vm_compute; reflexivity
+  end.
+
+Lemma nv_ft_ok : fns_ok [] nv_ft.
+Proof. cbn [fns_ok fn_ok nv_ft app]. fn_ok_tac. Qed.
 
 Lemma nv_ft_nd : NoDup (fnames nv_ft).
 Proof. cbn. constructor; [intros [H|[]]; discriminate H|]. constructor; [intros []|constructor]. Qed.
@@ -150,6 +157,7 @@ Example C01_nv_fun_theorem_applies : exists fuel',
   fst (fst (execute fuel' (cprogram nvp nv_s5) (s_module_fn nvp))) = fst (run 5000 nv_s5) /\
   snd (fst (execute fuel' (cprogram nvp nv_s5) (s_module_fn nvp))) = Done.
 Proof.
+  unfold nv_s5.
   destruct (module_fun_correct nvp nv_ft nv_main nv_ft_ok nv_ft_nd
               ltac:(vm_compute; reflexivity) ltac:(vm_compute; reflexivity) 5000
               ltac:(vm_compute; discriminate)) as [Hn|(fuel' & H1 & H2)].
@@ -157,4 +165,56 @@ Proof.
   - exists fuel'. split; [exact H1|].
     change (snd (run 5000 (fmodule nv_ft nv_main))) with RODone in H2.
     destruct (snd (fst (execute fuel' (cprogram nvp (fmodule nv_ft nv_main)) (s_module_fn nvp)))); try contradiction. reflexivity.
+Qed.
+
+(* ---------------------------------------------------------------- stage 4c: recursion through `self` (an early return from
+   inside a loop inside an if, the recursive call in expression position), functions calling earlier functions through
+   their captured cells (g captures f; k captures g but not f) *)
+Definition vk : str := [107%N].   Definition vr : str := [114%N].   Definition va : str := [97%N].
+Definition vb : str := [98%N].    Definition vu : str := [117%N].   Definition vz : str := [122%N].   Definition vw : str := [119%N].
+Definition nv_ft2 : ftab :=
+  [ (vf, ([vn], [ SIf (EBin BLe (EVar vn) (EInt 0)) [ SReturn (Some (EInt 0)) ];
+                  SAssign vacc (EInt 0);
+                  SIf (EBin BGt (EVar vn) (EInt 1))
+                    [ SFrom (EInt 0) (EVar vn) false None (Some vi) false
+                        [ SIf (EBin BGe (EVar vi) (EInt 2))
+                            [ SAssign vt (ESelf [EBin BSub (EVar vn) (EInt 2)]);
+                              SReturn (Some (EBin BAdd (EVar vt) (EInt 100))) ];
+                          SOpAssign vacc BAdd (EVar vi) ] ];
+                  SAssign vr (ESelf [EBin BSub (EVar vn) (EInt 1)]);
+                  SReturn (Some (EBin BAdd (EBin BAdd (EVar vr) (EVar vn)) (EVar vacc))) ]));
+    (vg, ([va; vb], [ SAssign vu (ECall (EVar vf) [EVar va]);
+                      SPrint (EVar vu);
+                      SReturn (Some (EBin BAdd (EVar vu) (EVar vb))) ]));
+    (vk, ([vz], [ SAssign vw (ECall (EVar vg) [EVar vz; EInt 1]);
+                  SReturn (Some (EVar vw)) ])) ].
+Definition nv_main2 : list stmt :=
+  [ SAssign vx (ECall (EVar vk) [EInt 3]);
+    SPrint (EVar vx);
+    SPrint (ECall (EVar vg) [EInt 2; EInt 10]);
+    SIf (EBin BGt (EVar vx) (EInt 0)) [ SPrint (ECall (EVar vf) [EInt 5]) ] ].
+Definition nv_s6 : source := fmodule nv_ft2 nv_main2.
+Example C01_nv_stage4c :
+  ok_block nv_ft2 None false [] nv_main2 = true /\
+  vm_out nv_s6 5000 = (fst (run 5000 nv_s6), Done) /\ snd (run 5000 nv_s6) = RODone /\
+  fst (run 5000 nv_s6) = [[49; 48; 49]; [49; 48; 50]; [52]; [49; 52]; [50; 48; 49]]%N.
+Proof. vm_compute. repeat split. Qed.
+
+Lemma nv_ft2_ok : fns_ok [] nv_ft2.
+Proof. cbn [fns_ok fn_ok nv_ft2 app]. fn_ok_tac. Qed.
+Lemma nv_ft2_nd : NoDup (fnames nv_ft2).
+Proof. repeat constructor; cbn; intuition discriminate. Qed.
+
+Example C01_nv_rec_theorem_applies : exists fuel',
+  fst (fst (execute fuel' (cprogram nvp nv_s6) (s_module_fn nvp))) = fst (run 5000 nv_s6) /\
+  snd (fst (execute fuel' (cprogram nvp nv_s6) (s_module_fn nvp))) = Done.
+Proof.
+  unfold nv_s6.
+  destruct (module_fun_correct nvp nv_ft2 nv_main2 nv_ft2_ok nv_ft2_nd
+              ltac:(vm_compute; reflexivity) ltac:(vm_compute; reflexivity) 5000
+              ltac:(vm_compute; discriminate)) as [Hn|(fuel' & H1 & H2)].
+  - change (snd (run 5000 (fmodule nv_ft2 nv_main2))) with RODone in Hn. destruct Hn.
+  - exists fuel'. split; [exact H1|].
+    change (snd (run 5000 (fmodule nv_ft2 nv_main2))) with RODone in H2.
+    destruct (snd (fst (execute fuel' (cprogram nvp (fmodule nv_ft2 nv_main2)) (s_module_fn nvp)))); try contradiction. reflexivity.
 Qed.
